@@ -53,6 +53,20 @@ fn main() {
         usage();
     }
     let prop = args[1].to_uppercase();
+    if prop == "_TZ" {
+        // debug: offsets of a zone, `ohmc _TZ Europe/Lisbon 1992-09-26T20:00 40`
+        use chrono::{Offset, TimeZone};
+        let tz: chrono_tz::Tz = args[2].parse().unwrap();
+        let t0 = util::parse_dt(&args[3]).unwrap();
+        let n: i64 = args[4].parse().unwrap();
+        for i in 0..n {
+            let u = t0 + chrono::Duration::minutes(30 * i);
+            let o = tz.offset_from_utc_datetime(&u).fix().local_minus_utc();
+            let back = tz.from_local_datetime(&(u + chrono::Duration::seconds(o as i64)));
+            println!("{}Z off={} local={} from_local={:?}", util::fmt_dt(u), o, util::fmt_dt(u + chrono::Duration::seconds(o as i64)), back.map(|d| d.naive_utc().to_string()));
+        }
+        return;
+    }
     if prop == "_FILTER" {
         // keep the stdin lines the real parser accepts (used once to build data/corpus.txt)
         use std::io::BufRead;
